@@ -1246,6 +1246,9 @@ sf_command	(SNDFILE *sndfile, int command, void *data, int datasize)
 
 				psf->sf.frames = position ;
 
+				/* Whatever followed the audio (pad byte, trailing chunks) is cut off as well. */
+				psf->dataend = 0 ;
+
 				position = psf_fseek (psf, 0, SEEK_CUR) ;
 
 				return psf_ftruncate (psf, position) ;
